@@ -575,8 +575,11 @@ int dns_decode(char *buf, size_t buflen, struct query *q, qr_t qr, char *packet,
 			/* output is like Hname10.com\0Hname20.com\0\0 */
 			offset = 0;
 			i = 0;
-			while (names[i][0] != '\0') {
-				int l = MIN(strlen(names[i]), buflen-offset-2);
+			while (i < 250 && names[i][0] != '\0') {
+				int space = (int) buflen - offset - 2;
+				int l = strlen(names[i]);
+				if (l > space)
+					l = space;
 				if (l <= 0)
 					break;
 				memcpy(buf + offset, names[i], l);
